@@ -25,6 +25,50 @@ CHECKS = {
         technique="explicit-state orbit closure; class vectors transported through the known relabelling; brute-force automorphism groups on orbit roots",
         text="On every state: classes are label independent (via the permutation my BFS knows), monochromatic and equitable (own refinement round); on every root every automorphism (filtering n! permutations) preserves classes.",
         note="Trusted: own refinement round and automorphism filter."),
+    "C03": dict(engine="E1-orbit+E3-ref", design="§2 E1/E3, §3 C03",
+        technique="explicit-state orbit enumeration; parse of every emitted string looked up in the orbit table; own isomorphism search for size/formula families",
+        text="For the string of every isomorphism class in the E1 bounds (emitted from the orbit root and from the farthest renumbering) and for formula/size families (118 elements, all element pairs, 10/11/100/101-atom labelled chains/stars/combs): parse(s) lies in the same orbit (or is isomorphic by my own search), atom/bond counts equal, and tucan(parse(s)) == s.",
+        note="Trusted: orbit tables, own isomorphism search (validated against orbit tables for n<=5)."),
+    "C05": dict(engine="E1-orbit+E3-ref", design="§2 E3, §3 C05",
+        technique="exhaustive enumeration of emitted strings over E1 classes and formula/count/zero-attribute families, judged by an EBNF-derived recogniser and an independent layout validator",
+        text="Every emitted string must be accepted by the recogniser compiled from tucan.ebnf and satisfy the layout rules (Hill order from my own periodic table, counts, index blocks by atomic number, ascending unique tuples a<b, ascending attribute blocks with values >=1 that equal the molecule's labels).",
+        note="Trusted: my periodic table, EBNF translation, validator written from the statement."),
+    "C06": dict(engine="E2-spelling", design="§2 E2, §3 C06",
+        technique="deviation-bounded exhaustive enumeration of molfile renderings (V3000 and V2000) of each molecule; differential oracle on the TUCAN string",
+        text="For all 1-3 atom molecules over {C,N,H,D} plus charged/resonance seeds: every rendering with <=1 deviation (<=2 on a subset) in coordinates, bond types 1..10, charges, index maps, extra keywords/blocks, headers, CRLF gives the same string as the default rendering; all {1,2,4}^m x {-1,0,1}^n redrawings of small skeletons agree.",
+        note="Trusted: my renderers follow the CTfile specification."),
+    "C07": dict(engine="E2-spelling", design="§2 E2, §3 C07",
+        technique="deviation-bounded exhaustive enumeration of V3000 spellings (every continuation split position, blank run, property order, index map, keyword slot, star-atom folding) against the abstract molecule",
+        text="For ~230 abstract molecules every single spelling deviation (all pairs of deviations on a subset) is rendered by my own renderer and the reader's graph must equal the abstract molecule attribute for attribute; explicit zero attributes must give the same TUCAN string and written file as omitted ones.",
+        note="Trusted: my V3000 renderer; stored attributes compared semantically (absent == 0)."),
+    "C08": dict(engine="E2-spelling", design="§2 E2, §3 C08",
+        technique="deviation-bounded exhaustive enumeration of V2000 spellings (codes vs property lines, stale codes, every composition of entries into lines, unrelated lines at every slot) against the abstract molecule and its V3000 rendering",
+        text="Molecules with 1,2,3,9,10,99,100,999 atoms and all charge/radical/isotope combinations on small skeletons: every single deviation (pairs on a subset) of the V2000 spelling is read as the abstract molecule and gets the V3000 rendering's TUCAN string.",
+        note="Trusted: my V2000 renderer (fixed columns, supersession rule)."),
+    "C09": dict(engine="E2-writer", design="§2 E2, §3 C09",
+        technique="exhaustive sweep of written line lengths / wrap alignments (library as renderer) checked by an own V3000 reader and library read-back; round trip over all E1 classes",
+        text="Graphs whose atom line length takes every value from the minimum through two wraps (x digits 1..160 x sign x 4 attribute layouts), label widths up to 40 digits, all charges/radicals/bond types: no physical line > 79 chars + newline, well-formed per my own reader, reads back equal; string->graph->molfile->graph->string is the identity on every E1 class.",
+        note="Trusted: own minimal V3000 reader for the writer's dialect."),
+    "C10": dict(engine="E3-sentences", design="§2 E3, §3 C10",
+        technique="exhaustive enumeration of token strings up to a length bound, a bounded sentence family and complete single-edit neighbourhoods, compared against a reference reader generated from tucan.ebnf",
+        text="Every string of the spaces (quick ~440k, thorough several million) is run through graph_from_tucan and the reference reader: accept/reject, exception type and resulting graph must agree.",
+        note="Trusted: reference reader = regex mechanically compiled from the tree's tucan.ebnf (cross-checked with a set-of-end-positions interpreter) + 40 lines of semantics."),
+    "C11": dict(engine="E1-orbit+E3-ref", design="§2 E3, §3 C11",
+        technique="exhaustive enumeration of meaning-preserving respellings (tuple permutations, endpoint swaps, duplicates, attribute block forms, renumberings inside element blocks) of the canonical string of every class in the bound",
+        text="Every respelling, first confirmed by the reference reader to be valid and to denote the same (or the renumbered) molecule, must normalise to the canonical string; normalisation is idempotent.",
+        note="Trusted: reference reader; respelling generator."),
+    "C14": dict(engine="E5-environment", design="§2 E5, §3 C14",
+        technique="fresh-interpreter enumeration of hash seeds; explicit-state BFS over call histories to a fixpoint of the canonical module state; stateless exploration of thread schedules with iterative context bounding under a cooperative scheduler (sys.monitoring)",
+        text="241-item workload identical under 16 (thorough 256+8 random) hash seeds; BFS over 8 (thorough 14) public calls incl. failing parses reaches a fixpoint of the module state (128 states quick) with every transition's result equal to a fresh process; all schedules with <=1 preemption (thorough <=2 on two harnesses, 3 threads at 1) at line granularity give the sequential results and leave a module state on which a probe workload still agrees.",
+        note="Line-granularity interleavings of instrumented code (all tucan functions + ANTLR lexer cache functions); GIL; private equal-valued inputs per thread."),
+    "C15": dict(engine="E4-sizes", design="§2 E4, §3 C15",
+        technique="exhaustive size ladder (every n up to N_small for 13 families) plus large sizes chosen from the measured frame-depth curve",
+        text="Every family (paths, labelled paths, cycles, ladders, combs, caterpillars, peptide backbone, stars, complete graphs, isolated atoms, disjoint copies) at every n<=200 (thorough 400) and at 1000/2000 (thorough 3000/5000) atoms plus the size where the measured frame depth would cross the recursion limit: the pipeline and the parser round trip return normally with equal strings.",
+        note="Default recursion limit; only observed exceptions are violations."),
+    "C16": dict(engine="E5-environment", design="§2 E5, §3 C16",
+        technique="exhaustive enumeration of RNG answer vectors (owned Random._randbelow: all n! shuffle outcomes, retry tree to depth 2) for all labelled graphs n<=4 (thorough 5) + zoo; real-seed grid",
+        text="For every labelled graph with tracer attributes and every shuffle outcome the result is a faithful relabelled copy in label order on the same label set, the argument is unchanged, the edge set differs when required; same seed gives the same result.",
+        note="CPython's shuffle draws only via _randbelow (unowned draws are trapped and would clear the exhaustive flag)."),
 }
 
 NOT_YET = {
@@ -64,8 +108,18 @@ def main():
             "add_only": True,
         },
         "engines": [
-            {"name": "E1-orbit", "path": "mc/e1.py", "serves_properties": ["C01", "C02", "C03", "C04", "C05", "C11", "C12", "C13"],
+            {"name": "E1-orbit", "path": "mc/e1.py", "serves_properties": ["C01", "C02", "C03", "C04", "C05", "C09", "C11", "C12", "C13"],
              "kind_free_text": "explicit-state explorer: BFS closure of labelled coloured graphs under relabelling actions, real pipeline on every state"},
+            {"name": "E2-spelling", "path": "mc/molfile.py", "serves_properties": ["C06", "C07", "C08"],
+             "kind_free_text": "nondeterministic molfile renderers (V3000/V2000) with explicit choice points; all renderings with <=d deviations from the default"},
+            {"name": "E2-writer", "path": "mc/props_c09.py", "serves_properties": ["C09"],
+             "kind_free_text": "library as renderer; exhaustive sweep of line lengths / wrap alignments; own reader as oracle"},
+            {"name": "E3-sentences", "path": "mc/sentences.py", "serves_properties": ["C10", "C11", "C05", "C03"],
+             "kind_free_text": "exhaustive string spaces + reference reader generated from tucan.ebnf (mc/ref/)"},
+            {"name": "E4-sizes", "path": "mc/props_c15.py", "serves_properties": ["C15"],
+             "kind_free_text": "size ladder with frame-depth probe"},
+            {"name": "E5-environment", "path": "mc/props_c14.py", "serves_properties": ["C14", "C16"],
+             "kind_free_text": "hash-seed enumeration, explicit-state BFS over call histories, cooperative thread scheduler with iterative context bounding (mc/sched.py), owned RNG answer enumeration (mc/props_c16.py)"},
         ],
         "checks": checks,
         "not_applicable": na,
